@@ -37,6 +37,12 @@ def gen(tier, seed, chem_mode=False):
         args = ", ".join("x%d: float" % k for k in range(ns))
         pre = " and ".join("0.001 < x%d < 1000" % k for k in range(ns))
         add("dxdtf_%s" % name, "c01-dxdtf", "dxdtf_ok(%r, (%s,))" % (name, ", ".join("x%d" % k for k in range(ns))), ["pre: " + pre], "make_dxdtf()(t, x) == the law on a single-cell system for EVERY x (%s)" % name, args, timeout=300)
+    for name, ns, us in (("dimer1", 1, "B"), ("abc1", 3, "G"), ("dimer1", 1, "J")):
+        args = ", ".join("x%d: float" % k for k in range(ns))
+        pre = " and ".join("0.001 < x%d < 1000" % k for k in range(ns))
+        add("dxdtf_units_%s_%s" % (name, us), "c01-dxdtf-units", "dxdtf_units_ok(%r, %r, (%s,))" % (name, us, ", ".join("x%d" % k for k in range(ns))), ["pre: " + pre],
+            "make_dxdtf(units_system=%s)(t, x) with x in that system's amount unit == the law, compared in SI, for EVERY x (%s: reactions of order != 1 make the volume factor matter)" % (us, name), args, timeout=300,
+            viol="the exported right-hand side in a requested units system is not the rate law")
     for us in ("B", "G"):
         add("units_%s" % us, "c04-rate-units", "units_invariance_ok('ab_grid2', 0, 1, %r, (x0, x1, x2, x3))" % us, ["pre: 0.001 < x0 < 1000 and 0.001 < x1 < 1000 and 0.001 < x2 < 1000 and 0.001 < x3 < 1000"],
             "the rate of change requested in units system %s is the default-units result re-scaled" % us, "x0: float, x1: float, x2: float, x3: float", timeout=300)
